@@ -240,6 +240,30 @@ def run(chk, prog):
                                '%s pushes to %s outside StoryState::add_error (bypasses the single delivery channel)'
                                % (root, lst), fn.loc(bb))
     chk.floor(R_D, 'pushes to the message lists', nprod, 2)
+    # ... and a list is never filled wholesale from another state's, except into the look-ahead copy: a message carried
+    # over from a look-ahead that is being rewound is raised again when the rewound part is played for real
+    WHOLE_OK = {'StoryState::copy_and_start_patching':
+                'the look-ahead copy starts with the messages raised so far (C13.messages-survive-lookahead)'}
+    from rules.c10 import fields_of_place as _fop
+    for fn in sorted(prog.fns.values(), key=lambda f: f.p):
+        if fn.crate != 'bladeink':
+            continue
+        for bb, si, st in fn.stmts():
+            if st['k'] != 'assign' or 'p' not in st['pl']:
+                continue
+            fl = _fop(st['pl'])
+            if not fl or fl[-1][0] != 'StoryState' or ('StoryState::' + fl[-1][1]) not in MSG_LISTS:
+                continue
+            root = prog.root_fn(fn).short
+            at = tr.prov(fn, st['rv']['op']) if st['rv']['k'] == 'use' else set()
+            fresh = any(a in ('call:Vec::new', 'call:Vec::with_capacity') for a in at) and not any(
+                a.startswith('field:StoryState::current_') for a in at)
+            lst = 'StoryState::' + fl[-1][1]
+            chk.decide(R_D, chk.key(R_D, root, lst, 'assigned'), fresh or root in WHOLE_OK,
+                       'fresh empty list' if fresh else 'table: ' + WHOLE_OK.get(root, ''),
+                       '%s assigns %s as a whole from %s: messages raised in one state are carried into another (a message '
+                       'of a look-ahead that is rewound is delivered early and then again when it is raised for real)'
+                       % (root, lst, sorted(a for a in at if a.startswith(('field:', 'arg:')))[:3]), fn.loc(bb, si))
 
 
 def check_add_error_force_end(chk, prog, tr, R_B):
